@@ -168,6 +168,48 @@ def main():
             failed_r = h.concrete_check(native_rel, case['inputs'], case['shape'])
             print('replay %s: failing claims (release): %s' % (args.replay, failed_r))
             sys.exit(1 if (failed or failed_r) else 0)
+        if hasattr(h, 'custom_main'):
+            # MIRBMC properties: the harness drives its own queries
+            known = load_known(pid)
+            res = h.custom_main(tier, seed, mir, build.REPO, lambda: native, args.procs)
+            kf_lines = list(res.get('lines', []))
+            reproduced = []
+            for v in res['violations']:
+                kfm = None
+                for kf in known:
+                    if h.KNOWN_MATCHERS[kf['match']](v):
+                        kfm = kf
+                if kfm is not None:
+                    line = 'KNOWN-FINDING: property=%s %s [%s]' % (pid, kfm['what'], kfm['id'])
+                    if line not in kf_lines:
+                        kf_lines.append(line)
+                    continue
+                path = os.path.join(VERIF, 'evidence', 'replays', '%s-%d.json' % (pid, len(reproduced)))
+                json.dump(v, open(path, 'w'), indent=1, default=str)
+                v['path'] = path
+                reproduced.append(v)
+            for l in kf_lines:
+                print(l)
+            if reproduced:
+                status = 1
+                for r in reproduced:
+                    print('VIOLATION property=%s replay=%s' % (pid, r['path']))
+                    print('  claim: %s' % r['claim'])
+            elif res['incon']:
+                status = 2
+                print('INCONCLUSIVE property=%s: %s' % (pid, res['incon'][0][:1000]))
+            else:
+                status = 0
+            native.close()
+            ev['coverage'] = res['coverage']
+            ev['coverage']['known_findings_reported'] = kf_lines
+            ev['violations'] = len(reproduced)
+            ev['assumptions'] = res.get('assumptions', [])
+            ev['wall_s'] = round(time.time() - t0, 1)
+            json.dump(ev, open(evidence_path, 'w'), indent=1, default=str)
+            print('property=%s tier=%s status=%s wall=%.1fs queries=%s' % (pid, tier, {0: 'HOLDS-WITHIN-BOUNDS', 1: 'VIOLATION', 2: 'INCONCLUSIVE'}[status],
+                                                                        time.time() - t0, ev['coverage'].get('solver_queries')))
+            sys.exit(status)
         # ---- model + translator validation
         nval_models = validate_models(native, getattr(h, 'VALIDATE_MODELS', []), seed, log)
         nval = translator_validation(h, mir, native, seed, h.VALIDATION_CASES[tier], log)
